@@ -27,6 +27,10 @@ H = {
     "commit_scalars_respected_n2": dict(crate="zkchannels-crypto", what="same, N=2", functions=["cproof.CommitmentProofBuilder::generate_proof_commitments (statement 3: scalar selection closure)"], bound="tuple length N=2"),
     "commit_scalars_respected_n3": dict(crate="zkchannels-crypto", what="same, N=3", functions=["cproof.CommitmentProofBuilder::generate_proof_commitments (statement 3: scalar selection closure)"], bound="tuple length N=3"),
     "range_digits_exact": dict(crate="zkchannels-crypto", what="prefix of generate_constraint_commitments (sign test + digit decomposition, sliced verbatim): Err iff value < 0; otherwise 9 digits < 128 with sum d_j*128^j == value; all i64, bit-precise, shape-independent", functions=["range.RangeConstraintBuilder::generate_constraint_commitments (statements before the digit proof builders)"]),
+    "g1_codec_validates": dict(crate="zkchannels-crypto", what="G1 element codec: for all 48-byte strings the wire bytes reach bls12_381 G1Affine::from_compressed unchanged, exactly once, no non-validating decoder is reached, and the result is Ok iff that decoder accepts; shorter input is an error", functions=["serde.<G1Affine as SerializeElement>::deserialize"]),
+    "g1_codec_short_input": dict(crate="zkchannels-crypto", what="G1 element codec: any input shorter than 48 bytes is an error (no panic) and reaches no decoder", functions=["serde.<G1Affine as SerializeElement>::deserialize"]),
+    "g2_codec_validates": dict(crate="zkchannels-crypto", what="G2 element codec: same, all 96-byte strings, G2Affine::from_compressed", functions=["serde.<G2Affine as SerializeElement>::deserialize"]),
+    "scalar_codec_validates": dict(crate="zkchannels-crypto", what="Scalar codec: all 32-byte strings reach Scalar::from_bytes (canonical only) unchanged; Ok iff it accepts; no reducing decoder (from_bytes_wide/from_raw) is reached", functions=["serde.<Scalar as SerializeElement>::deserialize"]),
     "vec_visitor_bounded_allocation": dict(crate="zkchannels-crypto", what="Vec<G> visitor: capacity requested is bounded by a constant, not by the attacker-chosen size hint", functions=["serde.<Vec<G> as SerializeElement>::deserialize"]),
 }
 
@@ -51,6 +55,12 @@ def _inject(scratch):
         f.write("\n" + open(os.path.join(VERIF, "kani/harness/za_states_hook.rs")).read())
     with open(os.path.join(scratch, "zkchannels-crypto/src/lib.rs"), "a") as f:
         f.write('\n#[cfg(kani)]\nmod verif_kani { include!("%s"); }\n' % os.path.join(VERIF, "kani/harness/zc.rs"))
+    # the recording stubs of the bls12_381 decoders must name subtle::CtOption; subtle is already in Cargo.lock (transitive)
+    ct = os.path.join(scratch, "zkchannels-crypto/Cargo.toml")
+    t = open(ct).read()
+    if not re.search(r"(?m)^subtle\s*=", t):
+        t = t.replace("[dependencies]\n", "[dependencies]\nsubtle = \"2\"\n", 1)
+        open(ct, "w").write(t)
 
 
 def make_scratch():
